@@ -30,6 +30,18 @@ Theorem C01_from_ast : forall known fuel a argnames args1 args2,
   orel (eval known fuel (combine argnames args1) a) (run known fuel a argnames args2).
 Proof. exact C01_from_ast_lemma. Qed.
 
+(* Generate accepts exactly the well-formed programs, up to the two things it does not look at
+   (side_ok: constants first-order; a closure literal's own name is not among its OuterIdents) *)
+Theorem gen_check_implies_wf : forall f a am cm,
+  gen_check f am cm a = true -> side_ok a = true -> wf am cm a.
+Proof. exact gen_check_wf_lemma. Qed.
+
+Theorem C01_generated : forall known fuel a argnames args1 args2,
+  gen_check (S (ast_size a)) (map Some argnames) [] a = true -> side_ok a = true ->
+  Forall2 vrel args1 args2 -> length args2 = length argnames ->
+  orel (eval known fuel (combine argnames args1) a) (run known fuel a argnames args2).
+Proof. exact C01_generated_lemma. Qed.
+
 (* ... in particular for one first-order argument tuple on both sides *)
 Theorem C01_from_ast_fo : forall known fuel a argnames args,
   wf (map Some argnames) [] a ->
@@ -111,15 +123,29 @@ Definition ex_prog : ast :=
 Example C01_core_nonvacuous :
   wf (map Some [nx]) [] ex_prog /\
   gen_check (S (ast_size ex_prog)) (map Some [nx]) [] ex_prog = true /\
+  side_ok ex_prog = true /\
   eval [] 60 (combine [nx] [VInt 5]) ex_prog = Ok (VInt 152) /\
   run [] 60 ex_prog [nx] [VInt 5] = Ok (VInt 152).
 Proof.
   split; [apply wfb_sound; vm_compute; reflexivity|].
-  split; [vm_compute; reflexivity|]. split; vm_compute; reflexivity.
+  split; [vm_compute; reflexivity|]. split; [vm_compute; reflexivity|]. split; vm_compute; reflexivity.
 Qed.
+
+(* the side condition on a closure's own name is needed: Generate accepts this annotated tree (own
+   name f listed as an outer identifier, Recursive not set - a shape the parser never produces),
+   the reference binds f to the closure itself, the generated code to the captured argument *)
+Definition bad_this : ast := ACall (AClosure [np] (AIdent nf) [nf] false nf) [ci 1].
+Example side_condition_this_needed :
+  gen_check (S (ast_size bad_this)) (map Some [nf]) [] bad_this = true /\
+  side_ok bad_this = false /\
+  run [] 20 bad_this [nf] [VInt 7] = Ok (VInt 7) /\
+  eval [] 20 (combine [nf] [VInt 7]) bad_this <> Ok (VInt 7).
+Proof. repeat split; try (vm_compute; reflexivity). vm_compute. discriminate. Qed.
 
 Print Assumptions exec_sim.
 Print Assumptions C01_from_ast.
+Print Assumptions gen_check_implies_wf.
+Print Assumptions C01_generated.
 Print Assumptions C01_from_ast_fo.
 Print Assumptions C01_first_order_result_exact.
 Print Assumptions C01_outcome.
